@@ -13,7 +13,7 @@ class Inconclusive(Exception):
     pass
 
 
-def run(P, fn, args, heap0=None, hooks=None, budget=300000, max_forks=16, single=True, forced=None, memory=None, align=None, on_start=None, globals_=None, inline_depth=None):
+def run(P, fn, args, heap0=None, hooks=None, budget=300000, max_forks=16, single=True, forced=None, memory=None, align=None, on_start=None, globals_=None, inline_depth=None, with_acc=False):
     """Execute fn abstractly. hooks: {callee: f(events, args, interp) -> value}. Returns
     (return value, events, heap) when single=True (exactly one path must exist), else the list of such
     triples, one per explored path (a path forks where a branch depends on unknown data)."""
@@ -35,6 +35,14 @@ def run(P, fn, args, heap0=None, hooks=None, budget=300000, max_forks=16, single
         outs = it.run(args)
     except (Budget, Stop) as ex:
         raise Inconclusive("%s: %s" % (fn.name, ex))
+    if with_acc:
+        # (return value, events, heap, accesses, accesses through pointers whose offset was not known) per path
+        res4 = [(ret, ev, heap, acc, list(getattr(it, "unknown_mem", []))) for (acc, ret, ev, heap) in outs]
+        if single:
+            if len(res4) != 1:
+                raise Inconclusive("%s: control flow depends on data the table does not determine (%d paths)" % (fn.name, len(res4)))
+            return res4[0]
+        return res4
     res = []
     for (acc, ret, ev, heap) in outs:
         if not any(r_ == ret and e_ == ev and h_ == heap for r_, e_, h_ in res):
